@@ -27,7 +27,7 @@
 (***************************************************************************)
 EXTENDS Integers, Sequences, FiniteSets, TLC
 
-VARIABLES cfg,    \* [n, npe, maxmsg, asis]     n = number of pieces
+VARIABLES cfg,    \* [n, npe, maxmsg, asis, guard]     n = number of pieces
           ts,     \* torrent state
           loop,   \* "ok" | "blocked"   (the torrent event loop)
           zomb,   \* piece downloads owned by peers that are already closed
@@ -73,9 +73,36 @@ MetaReqK == {"ext.meta.req0", "ext.meta.reqoob", "ext.meta.reqovf", "ext.meta.ty
 MetaDatK == {"ext.meta.data0", "ext.meta.dataoob", "ext.meta.datajunk", "ext.meta.datajunk2", "ext.meta.reject"}
 PexK     == {"ext.pex.ok", "ext.pex.odd"}
 
-Classes == Skip \cup Oversize \cup Stall \cup WrongLen \cup Garbage \cup Plain \cup HaveK \cup BitK
-           \cup {"haveall"} \cup FastK \cup ReqK \cup CancelK \cup RejectK \cup PieceK \cup HsK
-           \cup MetaReqK \cup MetaDatK \cup PexK
+\* the hand-written part of the alphabet
+Core == Skip \cup Oversize \cup Stall \cup WrongLen \cup Garbage \cup Plain \cup HaveK \cup BitK
+        \cup {"haveall"} \cup FastK \cup ReqK \cup CancelK \cup RejectK \cup PieceK \cup HsK
+        \cup MetaReqK \cup MetaDatK \cup PexK
+
+\* ut_pex payload families (generated names, the same construction as harness/c08/classes.go):
+\*  ext.pex.len.<field>.<n>   the string <field> of the message is n bytes long, n = 0 .. 100  (complete 6-byte
+\*                            entries followed by a partial one); fields: added, added.f (addedf), dropped, added6, dropped6
+\*  ext.pex.rep.<A>.<D>       added = the addresses named by the letters of A (a, x : two addresses nobody listens on),
+\*                            dropped = those of D: the same address several times in one list / in both lists
+PexFields == {"added", "addedf", "dropped", "added6", "dropped6"}
+PexMaxLen == 100
+PexLen(f, n) == "ext.pex.len." \o f \o "." \o ToString(n)
+PexLenRecs == {[cls |-> PexLen(f, n), f |-> f, n |-> n] : f \in PexFields, n \in 0 .. PexMaxLen}
+PexLenK  == {r.cls : r \in PexLenRecs}
+PexLenOf == [c \in PexLenK |-> CHOOSE r \in PexLenRecs : r.cls = c]
+RepL1 == {"a", "x"}
+RepL2 == {s \o t : s \in RepL1, t \in RepL1}
+RepAdded   == RepL1 \cup RepL2 \cup {s \o t : s \in RepL2, t \in RepL1} \cup {s \o t : s \in RepL2, t \in RepL2}
+RepDropped == {"", "a", "xa"}
+PexRepK  == {"ext.pex.rep." \o a \o "." \o d : a \in RepAdded, d \in RepDropped}
+PexFam   == PexLenK \cup PexRepK
+
+Classes == Core \cup PexFam
+
+\* a ut_pex message of a length family is well formed iff its lists are whole entries
+PexLenOk(c) == LET r == PexLenOf[c] IN
+               CASE r.f \in {"added", "dropped"} -> r.n % 6 = 0
+                 [] r.f = "addedf" -> r.n = 2            \* one flag byte per entry of `added` (two entries)
+                 [] OTHER -> r.n % 18 = 0
 
 \* messages saved in Peer.Messages while the info / the bitfield is not there yet
 Queueable == HaveK \cup BitK \cup {"haveall"} \cup FastK
@@ -153,7 +180,11 @@ Exp(c) ==
       [] c = "piece.alljunk" -> [i \in 1 .. cfg.n |-> M("piece", i - 1, 0, 0, Block)]
       [] c \in HsK -> << M("ext.hs", Wild, Wild, Wild, Wild) >>
       [] c \in MetaReqK \cup MetaDatK -> << M("ext.meta", Wild, Wild, Wild, Wild) >>
-      [] c \in PexK -> << M("ext.pex", Wild, Wild, Wild, Wild) >>
+      [] c \in PexK \cup PexRepK -> << M("ext.pex", Wild, Wild, Wild, Wild) >>
+         \* the reader delivers the two strings it knows with exactly the lengths sent (a = |added|, b = |dropped|)
+      [] c \in PexLenK -> LET r == PexLenOf[c] IN
+                          << M("ext.pex", CASE r.f = "added" -> r.n [] r.f = "addedf" -> 12 [] OTHER -> 0,
+                                          IF r.f = "dropped" THEN r.n ELSE 0, Wild, Wild) >>
       [] OTHER -> << >>
 
 Match(e, g) == /\ e.kind = g.kind
@@ -167,6 +198,8 @@ Benign(t, c) ==
     \/ c \in {"keepalive"} \cup Plain \cup {"haveall", "have.in0", "have.last", "bitfield.ok", "bitfield.full",
                                   "bitfield.empty", "allowedfast.in0", "ext.hs.ok", "ext.hs.nometa",
                                   "ext.meta.req0", "ext.pex.ok"}
+    \/ c \in PexRepK                                  \* well-formed lists; naming an address twice is legal
+    \/ (c \in PexLenK /\ PexLenOk(c))
     \/ (Live(t) /\ c \in {"request.ok", "cancel.ok"})
 
 \* result set of the handler for a DELIVERED message when pieces and bitfield exist (torrent_messagehandler.go)
@@ -184,13 +217,21 @@ Res(t, c) ==
     CASE RV(c) = "skip" -> {"skipped"}
       [] RV(c) = "drop" -> {"dropped"}
       [] RV(c) \in {"either", "desync"} -> {"handled", "dropped"}
+      [] c \in PexLenK /\ ~PexLenOk(c) -> {"handled", "dropped"}     \* malformed list: ignore the message or drop the peer
       [] NoInfo(t) /\ c \in Queueable -> {"queued"}
       [] NoInfo(t) /\ c \in NeedInfo -> {"dropped"}
       [] t = "meta" /\ c \in MetaDatK -> {"handled", "dropped"}     \* depends on a running info download
       [] NoInfo(t) -> {"handled"}
       [] OTHER -> LiveRes(c)
 
-NewPeer == [st |-> "open", q |-> << >>, clean |-> TRUE, sync |-> TRUE, chk |-> TRUE, intr |-> FALSE]
+\* has   the peer has announced a piece (a Starter message was handled or queued)
+\* dl    a piece download from this peer is running (torrent.pieceDownloaders)
+\* tm    request-timeout ("snub") timer of the peer:  off | armed | fired
+\*       fired = peer.Run has taken the timer event and is about to hand it to the loop (peerSnubbedC);
+\*       Stop/Reset of the timer by the loop cannot take that event back
+\* snub  the loop has marked the running download as snubbed (picker: piece.Snubbed)
+NewPeer == [st |-> "open", q |-> << >>, clean |-> TRUE, sync |-> TRUE, chk |-> TRUE, intr |-> FALSE,
+            has |-> FALSE, dl |-> FALSE, tm |-> "off", snub |-> FALSE]
 Gone    == [NewPeer EXCEPT !.st = "closed"]
 
 InitWith(c, st) ==
@@ -206,13 +247,32 @@ ResetWith(c, st) ==
 Step(k, p, c, r, a, b) == last' = [kind |-> k, pe |-> p, cls |-> c, res |-> r, alloc |-> a, benign |-> b]
 
 \* peer record after a message of class c with result r in state t
+\* Download and timer part (torrent_messagehandler.go Choke / Unchoke / Have / Bitfield, torrent_start.go):
+\*  - a download starts (worst case: whenever it can) in Downloading from an unchoked peer that has a piece; the timer is armed
+\*  - Choke with a running download: the download is parked, the timer is STOPPED (an event that peer.Run has already
+\*    taken stays on its way), the snubbed mark is cleared (picker.HandleChoke)
+\*  - Unchoke with a parked download: requests are sent again, the timer is armed
+Arm(tm)   == IF tm = "fired" THEN "fired" ELSE "armed"
+Disarm(tm) == IF tm = "fired" THEN "fired" ELSE "off"
+DlPart(pr, t, c) ==
+    LET has2 == pr.has \/ c \in Starter
+        chk2 == IF c = "unchoke" THEN FALSE ELSE IF c = "choke" THEN TRUE ELSE pr.chk
+    IN IF t # "down" THEN [has |-> has2, dl |-> pr.dl, tm |-> pr.tm, snub |-> pr.snub]
+       ELSE IF pr.dl /\ c = "choke" THEN [has |-> has2, dl |-> TRUE, tm |-> Disarm(pr.tm), snub |-> FALSE]
+       ELSE IF pr.dl /\ c = "unchoke" /\ pr.chk THEN [has |-> has2, dl |-> TRUE, tm |-> Arm(pr.tm), snub |-> pr.snub]
+       ELSE IF ~pr.dl /\ has2 /\ ~chk2 THEN [has |-> has2, dl |-> TRUE, tm |-> Arm(pr.tm), snub |-> FALSE]
+       ELSE [has |-> has2, dl |-> pr.dl, tm |-> pr.tm, snub |-> pr.snub]
+
 After(pr, t, c, r) ==
-    IF r = "dropped" THEN [pr EXCEPT !.st = "closed", !.q = << >>, !.clean = FALSE]
-    ELSE [pr EXCEPT !.q = IF r = "queued" THEN Append(@, c) ELSE @,
+    IF r = "dropped" THEN [pr EXCEPT !.st = "closed", !.q = << >>, !.clean = FALSE,
+                                     !.has = FALSE, !.dl = FALSE, !.tm = "off", !.snub = FALSE]
+    ELSE LET d == DlPart(pr, t, c) IN
+         [pr EXCEPT !.q = IF r = "queued" THEN Append(@, c) ELSE @,
                     !.clean = @ /\ Benign(t, c),
                     !.sync = @ /\ RV(c) # "desync",
                     !.chk = IF c = "unchoke" THEN FALSE ELSE IF c = "choke" THEN TRUE ELSE @,
-                    !.intr = IF c = "interested" THEN TRUE ELSE IF c = "notinterested" THEN FALSE ELSE @]
+                    !.intr = IF c = "interested" THEN TRUE ELSE IF c = "notinterested" THEN FALSE ELSE @,
+                    !.has = d.has, !.dl = d.dl, !.tm = d.tm, !.snub = d.snub]
 
 \* One message (class c) of peer p reaches the client.
 \* @obligation C08.dropOrHandle  the result is handled / queued / skipped / dropped - nothing else;
@@ -260,7 +320,9 @@ Ready(t2) ==
            late == SumLate(open, t2)
        IN /\ peer' = [p \in Peers |->
                         IF p \in open
-                        THEN IF RepOf(p, t2).closed THEN Gone ELSE [peer[p] EXCEPT !.q = << >>]
+                        THEN IF RepOf(p, t2).closed THEN Gone
+                             ELSE LET go == t2 = "down" /\ peer[p].has /\ ~peer[p].chk     \* the replay starts a download
+                                  IN [peer[p] EXCEPT !.q = << >>, !.dl = go, !.tm = IF go THEN Arm(@) ELSE @]
                         ELSE peer[p]]
           /\ IF late = 0 THEN UNCHANGED <<loop, zomb>>
              ELSE \/ loop' = "blocked" /\ UNCHANGED zomb
@@ -279,7 +341,8 @@ Progress ==
 \* checkCompletion: the download is complete, peers that are not interested are closed (by design)
 Complete ==
     /\ loop = "ok" /\ ts = "down" /\ ts' = "seed"
-    /\ peer' = [p \in Peers |-> IF peer[p].st = "open" /\ ~peer[p].intr THEN Gone ELSE peer[p]]
+    /\ peer' = [p \in Peers |-> IF peer[p].st = "open" /\ ~peer[p].intr THEN Gone
+                              ELSE [peer[p] EXCEPT !.dl = FALSE, !.tm = Disarm(@), !.snub = FALSE]]
     /\ UNCHANGED <<cfg, loop, zomb>>
     /\ Step("complete", 0, "", "none", 0, FALSE)
 
@@ -314,6 +377,26 @@ Disconnect(p) ==
     /\ UNCHANGED <<cfg, ts, loop, zomb>>
     /\ Step("disconnect", p, "", "none", 0, FALSE)
 
+\* Environment: RequestTimeout has passed without a block from peer p; peer.Run takes the timer event.
+TimerFire(p) ==
+    /\ peer[p].st = "open" /\ peer[p].tm = "armed"
+    /\ peer' = [peer EXCEPT ![p].tm = "fired"]
+    /\ UNCHANGED <<cfg, ts, loop, zomb>>
+    /\ Step("fire", p, "", "none", 0, FALSE)
+
+\* The loop takes the timer event of peer p (torrent_peer.go handlePeerSnubbed).  Messages of p that peer.Run
+\* delivered before it took the event may have been handled in between: the event can be STALE.
+\* @obligation C08.crash  a stale timer event (download parked by a choke, or gone) is ignored   [cfg.guard]
+\* cfg.guard = FALSE is the variant without that rule; MC_PeerInput_race exports its counterexample as a
+\* directed history for the driver.
+SnubDeliver(p) ==
+    /\ loop = "ok" /\ peer[p].st = "open" /\ peer[p].tm = "fired"
+    /\ LET pr == peer[p]
+           mark == pr.dl /\ (~cfg.guard \/ ~pr.chk)
+       IN peer' = [peer EXCEPT ![p] = [pr EXCEPT !.tm = "off", !.snub = @ \/ mark]]
+    /\ UNCHANGED <<cfg, ts, loop, zomb>>
+    /\ Step("snub", p, "", "none", 0, FALSE)
+
 -----------------------------------------------------------------------------
 (* Design invariants                                                        *)
 
@@ -328,7 +411,10 @@ InvBenign == (last.kind = "recv" /\ last.benign) => last.res # "dropped"
 InvAlloc == last.alloc <= AllocBound
 \* a closed peer has no queue left
 InvQueue == \A p \in Peers : peer[p].st = "closed" => peer[p].q = << >>
-Inv == InvLoop /\ InvZombie /\ InvResult /\ InvBenign /\ InvAlloc /\ InvQueue
+\* @obligation C08.crash  the picker's consistency rule ("peer snubbed while choked" panics the client): a download is
+\* never marked snubbed while it is parked by a choke, and only a running download is marked
+InvSnub == \A p \in Peers : peer[p].snub => (peer[p].st = "open" /\ peer[p].dl /\ ~peer[p].chk)
+Inv == InvLoop /\ InvZombie /\ InvResult /\ InvBenign /\ InvAlloc /\ InvQueue /\ InvSnub
 
 \* @obligation C08.isolation  a message of peer p changes nothing but p's own record
 Isolation == [][last'.kind = "recv" =>
